@@ -257,6 +257,34 @@ def requestsToCurrentAddress : List LStep → Nat → Option (Nat × String)
       some (k, "replication-request-sent-to-an-address-the-member-no-longer-has")
     else requestsToCurrentAddress rest (k + 1)
 
+/-- the follower loop: a heartbeat timeout makes only a voter of the known configuration a
+    candidate (C07), forgets the leader (C18), and changes neither term nor log (C14); a call that
+    needs a leader is refused at once by a server whose leader loop is not running, without a
+    write (C17, C08) -/
+def followerRules : List LStep → Nat → Option (Nat × String)
+  | [], _ => none
+  | s :: rest, k =>
+    let bad : Option String :=
+      if s.post.view.dead ∨ s.pre.view.dead then none else
+      match s.ev with
+      | .heartbeatTimeout =>
+        if s.pre.view.vol.role ≠ .follower ∨ isLeading s.pre then none
+        else if ¬ hasVote s.pre.view.vol.latest selfId ∧ s.post.view.vol.role ≠ .follower then some "non-voter-left-the-follower-state"
+        else if s.post.view.vol.role = .leader then some "heartbeat-timeout-made-a-leader"
+        else if s.post.view.vol.leader ≠ 0 then some "leader-still-named-after-a-heartbeat-timeout"
+        else if s.post.view.vol.term ≠ s.pre.view.vol.term then some "heartbeat-timeout-changed-the-term"
+        else if s.post.view.writes ≠ [] then some "heartbeat-timeout-wrote-to-the-stores"
+        else none
+      | .calls cs _ =>
+        if isLeading s.pre then none
+        else if cs.any (fun c => !(s.post.outcomes.any (fun o => o.1 = c.1 ∧ o.2 = .notLeader))) then some "call-not-refused-by-a-server-that-is-not-leader"
+        else if s.post.view.writes ≠ [] then some "refused-call-wrote-to-the-stores"
+        else none
+      | _ => none
+    match bad with
+    | some b => some (k, b)
+    | none => followerRules rest (k + 1)
+
 /-! ## C09 -/
 
 /-- a VerifyLeader answered nil: between the call and the answer a quorum of the voters (the
